@@ -330,6 +330,40 @@ def random_case(rng, tier):
     return gen_history(rng, tier)
 
 
+def const_case(rng, tier, s, form):
+    """a number taken from the library source (+-1) as the number of keys / of samples in one call / of occurrences of one key / the modulus /
+    a value around which the keys lie"""
+    try:
+        if form in ("rows", "nonempty"):
+            if s > 30000:
+                return None
+            c11._FORCE["nk"] = s
+            return gen_history(rng, tier, nb=rng.randint(1, 3))
+        if form == "emptyrun":
+            c11._FORCE["around"] = s
+            return gen_history(rng, tier)
+        if form == "rowlen":
+            # modulus s (where the table can afford it); one key exactly s times in one call
+            if s <= 5000 and rng.random() < 0.5:
+                c11._FORCE["nk"] = rng.choice([3, 10, 40])
+                return gen_history(rng, tier, kd=rng.choice([None, "int64", "int32", "uint64"]), mod=s)
+            c = gen_history(rng, tier, nb=rng.randint(0, 2))
+            k1 = rng.choice(c["keys"])
+            c["batches"].insert(rng.randint(0, len(c["batches"])), {"kind": "heavy", "samples": [k1] * s + [rng.choice(c["keys"]) for _ in range(3)]})
+        else:
+            # "cells": one call with exactly s samples (formula-generated: keys and non-keys mixed)
+            c = gen_history(rng, tier, nb=rng.randint(0, 2))
+            lo, hi = (-2 ** 62, 2 ** 62) if c["kdtype"] is None else (int(np.iinfo(c["kdtype"]).min), int(np.iinfo(c["kdtype"]).max))
+            extra = [x for x in (5, 99, -4, max(c["keys"]) + 1) if lo <= x <= hi and x not in c["keys"]]
+            c["batches"].insert(rng.randint(0, len(c["batches"])), {"kind": "huge", "gen": {"n": s, "mult": rng.choice([1, 3, 7]), "extra": extra}})
+        total = sum(len(expand(b, c)["samples"]) for b in c["batches"])
+        c["perm"] = []
+        c["cuts"] = sorted(rng.randint(0, total) for _ in range(rng.randint(0, 3)))
+        return c
+    finally:
+        c11._FORCE.clear()
+
+
 def classify(case, res):
     if any(b["kind"] == "wide" for b in case["batches"]):
         return "F12a"
